@@ -835,6 +835,12 @@ func main() {
 			n++
 			continue
 		}
+		// (thorough) the request tables for all 4 096 four-field shapes make a binary of more than 2 GB, which the
+		// linker cannot produce; every eighth one is kept
+		if *prop == "C02" && sh.family == "flat" && len(sh.root.fields) == 4 && n%8 != 0 {
+			n++
+			continue
+		}
 		gens[n%*shards].emit(sh)
 		n++
 	}
